@@ -22,25 +22,29 @@ def cases_for(tier, seed):
     n = 0
     for strategy in ("none", "newer", "arbiter"):
         for nodes in (["n1", "n2"], ["n1", "n2", "n3"]):
-            base = [cluster.client_op(nodes[0], nodes, c04.DATA_OPS[0]), cluster.client_op(nodes[0], nodes, c04.DATA_OPS[1])]
-            if strategy == "arbiter":
-                # an arbiter is connected (on the primary, or on the last node) so that conflicts are recorded
-                base = base + [cluster.client_op(nodes[n % len(nodes)], nodes, {"op": "arbiter"}, c="arb")]
-            ops = c04.DATA_OPS + EXTRA_OPS
-            for node in nodes:
-                for op in ops:
-                    cases.append(c04.build_case("b%d" % n, nodes, base + [cluster.client_op(node, nodes, op)], seed + n,
-                                                "random" if n % 2 else "fifo", strategy=strategy))
-                    n += 1
-                for op in c04.ADMIN_OPS[:3]:
+            base0 = [cluster.client_op(nodes[0], nodes, c04.DATA_OPS[0]), cluster.client_op(nodes[0], nodes, c04.DATA_OPS[1])]
+            # on an arbiter database an arbiter is connected so that conflicts are recorded: on every node in turn
+            # (the primary, the secondary that issues the command, another secondary)
+            for arb_at in (nodes if strategy == "arbiter" else [None]):
+                # (k1 is written once more first: the versioned write with version 0 is then a stale one, i.e. a conflict)
+                base = base0 + ([cluster.client_op(nodes[0], nodes, {"op": "set", "k": "k1", "v": "again"}),
+                                 {"node": arb_at, "c": "arb", "line": "use-db d tok"},
+                                 cluster.client_op(arb_at, nodes, {"op": "arbiter"}, c="arb")] if arb_at else [])
+                ops = c04.DATA_OPS + EXTRA_OPS
+                for node in nodes:
+                    for op in ops:
+                        cases.append(c04.build_case("b%d" % n, nodes, base + [cluster.client_op(node, nodes, op)], seed + n,
+                                                    "random" if n % 2 else "fifo", strategy=strategy))
+                        n += 1
+                    for op in c04.ADMIN_OPS[:3]:
+                        cases.append(c04.build_case("b%d" % n, nodes, base + [cluster.client_op(node, nodes, op, c="a")],
+                                                    seed + n, "random" if n % 2 else "fifo", strategy=strategy))
+                        n += 1
+                    # resolve (administrator session), for a conflict id that exists or not
+                    op = {"op": "resolve", "k": "k1", "v": "rv", "ver": 1, "opid": 4242, "d": "d"}
                     cases.append(c04.build_case("b%d" % n, nodes, base + [cluster.client_op(node, nodes, op, c="a")],
-                                                seed + n, "random" if n % 2 else "fifo", strategy=strategy))
+                                                seed + n, "fifo", strategy=strategy))
                     n += 1
-                # resolve (administrator session), for a conflict id that exists or not
-                op = {"op": "resolve", "k": "k1", "v": "rv", "ver": 1, "opid": 4242, "d": "d"}
-                cases.append(c04.build_case("b%d" % n, nodes, base + [cluster.client_op(node, nodes, op, c="a")],
-                                            seed + n, "fifo", strategy=strategy))
-                n += 1
     for c in cases:
         c["budget"] = 1500   # far above the bound of any single operation
     return cases
